@@ -42,6 +42,31 @@ def rev_line():
     return [C(5, 1, 0), C(1, 1, 3), C(1, 1, 3), C(1, 1, 3), C(5, 1, 3), C(1, 1, 1), C(1, 1, 1), C(1, 1, 1)]
 
 
+def push_value(v):
+    """commands that leave the non-negative integer v on the selected stack (Horner, base 16)"""
+    digits = []
+    while True:
+        digits.append(v % 16)
+        v //= 16
+        if v == 0:
+            break
+    digits.reverse()
+    lit = lambda d: C(0, d, 1) if d > 0 else C(0, 1, 0)
+    prog = [lit(digits[0])]
+    for d in digits[1:]:
+        prog += [C(0, 16, 1), C(2, 2, 3)]
+        if d:
+            prog += [lit(d), C(1, 2, 3)]
+    return prog
+
+
+def print_cps(cps_list, stream=1):
+    prog = []
+    for cp in cps_list:
+        prog += push_value(cp) + [C(1, 1, stream)]
+    return prog
+
+
 INPUT_POOL = ["", "a", "ab\n", "한글\n", "x\ny", "\U0001F600\n\n", "abc\ndef\n", "\n", "1 2\n", "\x00\x7f\x80\n", "퟿￿\U00010000\U0010ffff"]
 
 
@@ -154,6 +179,11 @@ def gen_cases(rng, n, flavor="mixed"):
         ([C(0, 65, 1), C(1, 1, 1), C(0, 1400, 40), C(1, 1, 1), C(0, 1, 1)], ""),       # 56000: surrogate -> encoding error
         ([C(0, 65, 1), C(1, 1, 1), C(0, 1114112, 1), C(1, 1, 2)], ""),                 # beyond U+10FFFF
         ([C(0, 65536, 1), C(0, 65536, 1), C(2, 2, 1)], ""),                            # 2^32 -> unspecified
+        # characters at every UTF-8 length boundary printed from constants, to both streams, before and after a read
+        (print_cps([0x7F, 0x80, 0x7FF, 0x800]) + print_cps([0xFFFF, 0x10000], 2) + print_cps([0x10FFFF, 0xD7FF, 0xE000]), ""),
+        (print_cps([0x10000, 0x41]) + [C(5, 1, 0), C(1, 1, 1), C(5, 1, 3)] + print_cps([0x1F600], 2) + print_cps([0x80]), "é\n"),
+        ([C(5, 1, 0), C(1, 1, 1), C(5, 1, 3)] + print_cps([0x10FFFF, 0x800, 0x7FF]), "\U00010000"),
+        (print_cps([0xE9], 2) + print_cps([0xE9, 0xFF, 0x100]), ""),
         # fractions and negatives printed, NaN printed, multi-operand restore
         ([C(0, 1, 2), C(4, 1, 3), C(0, 1, 3), C(2, 2, 3), C(3, 1, 1), C(1, 1, 1)], ""),
         ([C(0, 1, 1), C(0, 1, 2), C(0, 1, 3), C(3, 3, 4), C(4, 3, 5), C(1, 1, 1), C(1, 1, 1), C(1, 1, 1), C(1, 1, 1)], ""),
@@ -438,7 +468,7 @@ def check_c01(pid, tier, seed, replay):
     write_cases(cpath, tcases)
     trace = run_steps(ck, cpath, "T", maxsteps=250, maxlimbs=6)
     validate_traces(ck, trace, 14, classify_c01, "T")
-    obs = run_obs(ck, cpath, "T", levels="0", bound=1500, timeout_ms=3000)
+    obs = run_obs(ck, cpath, "T", levels="0", bound=1100, timeout_ms=1500)
     validate_traces(ck, obs, 14, classify_c01, "T-bin")
     ck.sample(prog_text(tcases[40]["prog"]))
     ck.cov["vacuity"]["T_programs"] = len(tcases)
@@ -516,6 +546,11 @@ def check_c14(pid, tier, seed, replay):
     long_texts = [rand_text(rng, 2000 if quick else 10000)]
     long_texts.append([c for _ in range(200 if quick else 1000) for c in (rand_text(rng, rng.randint(0, 6)) + [10])])
     long_texts.append([97] * (3000 if quick else 10000) + [10] + [0x10FFFF] * 50)
+    # single lines around the usual I/O buffer sizes, with multi-byte characters across the boundary
+    for size in (8192, 16384) if quick else (4096, 8192, 16384, 65536):
+        for k in (0, 1, 2, 3):
+            long_texts.append([97] * (size - k) + [0xD55C, 0x10000, 0xE9] + [98] * 5 + [10, 99])
+    long_texts.append(rand_text(rng, 5000) if quick else rand_text(rng, 40000))
     long_texts = [[c for c in t] for t in long_texts]
     for t in long_texts:
         if not t or t[0] == 10 and len(t) == 1:
